@@ -244,11 +244,16 @@ fn vec_entry<T: Copy + Default + 'static>(b: &'static Bump, s: &W6Script) -> Got
             v.push(T::default());
         });
     }
+    let cap_start = v.capacity();
     let conv_v = |r: Result<Option<()>, (PanicClass, String)>, v: &BVec<'static, T>| match r {
         Ok(Some(())) => Got::Ok {
             addr: v.as_ptr() as usize,
             bytes: if esz == 0 { Some(0) } else { v.capacity().checked_mul(esz) },
         },
+        // a refused reservation must not leave a capacity that claims the refused memory
+        Ok(None) if esz > 0 && v.capacity() != cap_start => {
+            Got::Panic(PanicClass::Other, format!("CAPACITY-SHORT refused reservation left capacity {} (was {})", v.capacity(), cap_start))
+        }
         Ok(None) => Got::Err,
         Err((c, m)) => Got::Panic(c, m),
     };
@@ -677,7 +682,14 @@ pub enum W7Script {
     /// Vec with reserved capacity accepts that many elements without moving
     VecPromise { esize: ES, n: usize, via_reserve: bool, pre: usize, noise: Vec<usize> },
     /// push-only growth
-    VecGrowth { esize: ES, n: usize, noise_every: usize },
+    VecGrowth {
+        esize: ES,
+        n: usize,
+        noise_every: usize,
+        /// 0 push, 1 reserve(1)+push, 2 try_reserve(1)+push, 3 extend(one), 4 insert(0, ..), 5 extend_from_slice(&[x])
+        #[serde(default)]
+        via: u8,
+    },
     StrPromise { n: usize, via_reserve: bool, pre: usize },
     StrGrowth { n: usize },
 }
@@ -861,7 +873,7 @@ fn vec_promise<T: Copy + Default + 'static>(bump: &'static Bump, n: usize, via_r
     std::mem::forget(v);
 }
 
-fn vec_growth<T: Copy + Default + 'static>(bump: &'static Bump, n: usize, noise_every: usize, viol: &mut Vec<Violation>, stats: &mut Stats) {
+fn vec_growth<T: Copy + Default + 'static>(bump: &'static Bump, n: usize, noise_every: usize, via: u8, viol: &mut Vec<Violation>, stats: &mut Stats) {
     let esz = std::mem::size_of::<T>();
     if esz == 0 {
         return;
@@ -875,12 +887,31 @@ fn vec_growth<T: Copy + Default + 'static>(bump: &'static Bump, n: usize, noise_
         if noise_every > 0 && i % noise_every == 0 {
             let _ = b_call(|| bump.alloc(0u8));
         }
-        if b_call(|| v.push(T::default())).is_err() {
+        let n_eff = if via == 4 { n.min(3000) } else { n };
+        if i >= n_eff {
+            break;
+        }
+        let r = b_call(|| match via {
+            1 => {
+                v.reserve(1);
+                v.push(T::default())
+            }
+            2 => {
+                let _ = v.try_reserve(1);
+                v.push(T::default())
+            }
+            3 => v.extend(std::iter::once(T::default())),
+            4 => v.insert(0, T::default()),
+            5 => v.extend_from_slice(&[T::default()]),
+            _ => v.push(T::default()),
+        });
+        if r.is_err() {
             break;
         }
         if v.capacity() != cap {
             if cap > 0 && v.capacity() < 2 * cap {
-                ck7(viol, "vec", "vec-growth-not-geometric", "", format!("capacity {} -> {} at len {}", cap, v.capacity(), v.len()));
+                let how = ["push", "reserve(1)+push", "try_reserve(1)+push", "extend", "insert", "extend_from_slice"][via.min(5) as usize];
+                ck7(viol, "vec", "vec-growth-not-geometric", how, format!("capacity {} -> {} at len {} growing by {}", cap, v.capacity(), v.len(), how));
                 break;
             }
             cap = v.capacity();
@@ -931,12 +962,12 @@ pub fn exec_w7(s: &W7Script, k: usize) -> WReport {
                         ES::B24 => vec_promise::<P24>(bump, *n, *via_reserve, *pre, noise, &mut viol, &mut stats),
                         _ => vec_promise::<Pad<64>>(bump, *n, *via_reserve, *pre, noise, &mut viol, &mut stats),
                     },
-                    W7Script::VecGrowth { esize, n, noise_every } => match esize {
-                        ES::B1 => vec_growth::<u8>(bump, *n, *noise_every, &mut viol, &mut stats),
-                        ES::B3 => vec_growth::<Pad<3>>(bump, *n, *noise_every, &mut viol, &mut stats),
-                        ES::B8 => vec_growth::<P8>(bump, *n, *noise_every, &mut viol, &mut stats),
-                        ES::B24 => vec_growth::<P24>(bump, *n, *noise_every, &mut viol, &mut stats),
-                        _ => vec_growth::<Pad<64>>(bump, *n, *noise_every, &mut viol, &mut stats),
+                    W7Script::VecGrowth { esize, n, noise_every, via } => match esize {
+                        ES::B1 => vec_growth::<u8>(bump, *n, *noise_every, *via, &mut viol, &mut stats),
+                        ES::B3 => vec_growth::<Pad<3>>(bump, *n, *noise_every, *via, &mut viol, &mut stats),
+                        ES::B8 => vec_growth::<P8>(bump, *n, *noise_every, *via, &mut viol, &mut stats),
+                        ES::B24 => vec_growth::<P24>(bump, *n, *noise_every, *via, &mut viol, &mut stats),
+                        _ => vec_growth::<Pad<64>>(bump, *n, *noise_every, *via, &mut viol, &mut stats),
                     },
                     W7Script::StrPromise { n, via_reserve, pre } => {
                         let mut st = BString::new_in(bump);
@@ -1070,6 +1101,7 @@ pub fn gen_w7(seed: u64) -> W7Script {
                     esize: *r.pick(&[ES::B1, ES::B3, ES::B8, ES::B24, ES::B4096]),
                     n: [10usize, 100, 1000, 10_000, 100_000][r.usize_below(5)],
                     noise_every: [0usize, 1, 3, 50][r.usize_below(4)],
+                    via: r.below(6) as u8,
                 }
             } else {
                 W7Script::StrGrowth { n: [10usize, 1000, 100_000][r.usize_below(3)] }
